@@ -340,7 +340,7 @@ def _run_case(item):
 
 def run(ctx: Ctx):
     from ..translate import gen
-    gen.regenerate(ctx, ["Constants", "StepBody", "HopAlpha"])
+    gen.regenerate(ctx, ["Constants", "StepBody", "HopAlpha", "Thermo"])
     leanproj.check_theorems(ctx, MODULE, THEOREMS)
     from .registry import THEOREMS_STEPTIE
     # translator tie: thermostat, velocity Verlet, thermostat - in that order, in every engine that has a thermostat
@@ -348,6 +348,9 @@ def run(ctx: Ctx):
     from .registry import THEOREMS_SCALARTIE
     # translator tie: the coefficients computed by Molecular_Dynamics_Langevin.initialize are the model's c1, c2
     leanproj.check_theorems(ctx, "PyseqmVerif.Properties.ScalarTie", [t for t in THEOREMS_SCALARTIE if "langevin" in t])
+    from .registry import THEOREMS_THERMOTIE
+    # translator tie: thermostatted engines count 3N degrees of freedom (no constraint subtracted), as the stationary-temperature theorem assumes
+    leanproj.check_theorems(ctx, "PyseqmVerif.Properties.ThermoTie", [t for t in THEOREMS_THERMOTIE if "setDof" in t or "temperature" in t])
     drv = leanproj.Driver()
     try:
         try:
